@@ -101,8 +101,17 @@ theorem closed_opY (a b : Coef) : Closed (opY a b) := closed_append (closed_opC 
 theorem closed_opU (a b : Coef) : Closed (opU a b) :=
   closed_append (closed_append (closed_append (closed_kepler _) (closed_opY _ _)) (closed_opY _ _))
     (closed_kepler _)
-theorem closed_corrector2 (inv : Int) : Closed (corrector2Ops inv) :=
-  closed_append (closed_opU _ _) (closed_opU _ _)
+theorem closed_opUinv (a b : Coef) : Closed (opUinv a b) :=
+  closed_append (closed_append (closed_append (closed_kepler _) (closed_opY _ _)) (closed_opY _ _))
+    (closed_kepler _)
+theorem closed_corrector2 (fx : Bool) (inv : Int) : Closed (corrector2Ops fx inv) := by
+  unfold corrector2Ops
+  cases fx
+  · exact closed_append (closed_opU _ _) (closed_opU _ _)
+  · simp only [if_true]
+    split
+    · exact closed_append (closed_opU _ _) (closed_opU _ _)
+    · exact closed_append (closed_opUinv _ _) (closed_opUinv _ _)
 
 theorem closed_ite (b : Bool) {p q : List Prim} (hp : Closed p) (hq : Closed q) :
     Closed (if b then p else q) := by cases b <;> simpa
@@ -145,13 +154,13 @@ theorem stepOps_initF (c : Config) (f : Flags) : stepOps c (initF f) = stepOps c
 /-- what `synchronize` does between saving and restoring `p_jh` -/
 def syncMid (c : Config) : List Prim :=
   [.kepler (lastCoef c.kernel), .com (lastCoef c.kernel)] ++
-  (if c.corrector2 then corrector2Ops (-1) else []) ++
+  (if c.corrector2 then corrector2Ops c.c2fixed (-1) else []) ++
   (if c.corrector != 0 then correctorOps c.coord c.corrector (-1) else []) ++
   [.toInertial]
 
 theorem closed_syncMid (c : Config) : Closed (syncMid c) :=
   closed_append (closed_append (closed_append (closed_drift _ _)
-    (closed_ite _ (closed_corrector2 _) closed_nil))
+    (closed_ite _ (closed_corrector2 _ _) closed_nil))
     (closed_ite _ (closed_corrector _ _ _) closed_nil)) closed_toI
 
 theorem syncOps_unsync (c : Config) (f : Flags) (h : (initF f).isSync = false) :
@@ -170,10 +179,10 @@ theorem transferList_syncMid_posvel (c : Config) (L : Comps) (h : L.pj = true) :
   unfold syncMid
   rw [transferList_append]
   have hc : Closed ([Prim.kepler (lastCoef c.kernel), .com (lastCoef c.kernel)] ++
-      (if c.corrector2 then corrector2Ops (-1) else []) ++
+      (if c.corrector2 then corrector2Ops c.c2fixed (-1) else []) ++
       (if c.corrector != 0 then correctorOps c.coord c.corrector (-1) else [])) :=
     closed_append (closed_append (closed_drift _ _)
-      (closed_ite _ (closed_corrector2 _) closed_nil))
+      (closed_ite _ (closed_corrector2 _ _) closed_nil))
       (closed_ite _ (closed_corrector _ _ _) closed_nil)
   have := hc.pj h
   simp only [transferList, transfer]
@@ -240,7 +249,7 @@ theorem closed_stepTail (c : Config) : Closed (stepTail c) := by
 def driftOps (c : Config) (isSync : Bool) : List Prim :=
   if isSync then
     (if c.corrector != 0 then correctorOps c.coord c.corrector 1 else []) ++
-    (if c.corrector2 then corrector2Ops 1 else []) ++
+    (if c.corrector2 then corrector2Ops c.c2fixed 1 else []) ++
     [.kepler (firstCoef c.kernel), .com (firstCoef c.kernel)]
   else [.kepler (.frac 1 1), .com (.frac 1 1)]
 
@@ -249,7 +258,7 @@ theorem closed_driftOps (c : Config) (b : Bool) : Closed (driftOps c b) := by
   cases b
   · exact closed_drift _ _
   · exact closed_append (closed_append (closed_ite _ (closed_corrector _ _ _) closed_nil)
-      (closed_ite _ (closed_corrector2 _) closed_nil)) (closed_drift _ _)
+      (closed_ite _ (closed_corrector2 _ _) closed_nil)) (closed_drift _ _)
 
 /-- shape of a step in unsafe mode, by flag case (flags already initialised) -/
 theorem stepOps_unsafe (c : Config) (hs : c.safe = false) (g : Flags) (hg : g.allocated = true) :
@@ -306,11 +315,20 @@ theorem savedKept_opY (a b : Coef) : SavedKept (opY a b) :=
 theorem savedKept_opU (a b : Coef) : SavedKept (opU a b) :=
   savedKept_append (savedKept_append (savedKept_append (savedKept_kepler _) (savedKept_opY _ _))
     (savedKept_opY _ _)) (savedKept_kepler _)
-theorem savedKept_corrector2 (inv : Int) : SavedKept (corrector2Ops inv) :=
-  savedKept_append (savedKept_opU _ _) (savedKept_opU _ _)
+theorem savedKept_opUinv (a b : Coef) : SavedKept (opUinv a b) :=
+  savedKept_append (savedKept_append (savedKept_append (savedKept_kepler _) (savedKept_opY _ _))
+    (savedKept_opY _ _)) (savedKept_kepler _)
+theorem savedKept_corrector2 (fx : Bool) (inv : Int) : SavedKept (corrector2Ops fx inv) := by
+  unfold corrector2Ops
+  cases fx
+  · exact savedKept_append (savedKept_opU _ _) (savedKept_opU _ _)
+  · simp only [if_true]
+    split
+    · exact savedKept_append (savedKept_opU _ _) (savedKept_opU _ _)
+    · exact savedKept_append (savedKept_opUinv _ _) (savedKept_opUinv _ _)
 theorem savedKept_syncMid (c : Config) : SavedKept (syncMid c) :=
   savedKept_append (savedKept_append (savedKept_append (savedKept_drift _ _)
-    (savedKept_ite _ (savedKept_corrector2 _) savedKept_nil))
+    (savedKept_ite _ (savedKept_corrector2 _ _) savedKept_nil))
     (savedKept_ite _ (savedKept_corrector _ _ _) savedKept_nil)) savedKept_toI
 
 /-! ### synchronize with keep_unsynchronized -/
